@@ -816,6 +816,9 @@ where
             // anything left unconsumed - this won't be lost.
 
             let missing = matches!(err, Message::Missing(_));
+            // output of an inner command (its --help or a final error) is not a parse failure
+            // to recover from: it must propagate even with catch
+            let catch = catch && !matches!(err, Message::ParseFailure(_));
 
             if catch || (missing && orig_args.len() == args.len()) || (!missing && err.can_catch())
             {
